@@ -410,7 +410,34 @@ func r3emRunObligations(c *Ctx, r *vmVMRoles, cs *r2FieldSumm) []Obligation {
 		}
 		return false
 	}
-	res := vmWalk(vmWalkOpts{fn: fn, correlate: true, replace: vmSlicer(relevant)})
+	// helpers that wrap the send on the signal channel (`func (c *Core) signal(i) { c.SignalHandle <- i }`)
+	// are spliced into the walk
+	sendsSignal := func(g *vmFn) bool {
+		found := false
+		ast.Inspect(g.fd.Body, func(n ast.Node) bool {
+			if ss, ok := n.(*ast.SendStmt); ok && vmFieldOf(g.info, ss.Chan) == sigF {
+				found = true
+			}
+			return !found
+		})
+		return found
+	}
+	inlineSend := func(callee *vmFn, call *ast.CallExpr) bool {
+		return callee.fd != fn.fd && len(callee.fd.Body.List) <= 4 && sendsSignal(callee)
+	}
+	relevant0 := relevant
+	relevant = func(n ast.Node) bool {
+		if relevant0(n) {
+			return true
+		}
+		if call, ok := n.(*ast.CallExpr); ok {
+			if callee := vmDeclIndex(c).of(CalleeOf(info, call)); callee != nil && inlineSend(callee, call) {
+				return true
+			}
+		}
+		return false
+	}
+	res := vmWalk(vmWalkOpts{fn: fn, correlate: true, replace: vmSlicer(relevant), inline: inlineSend})
 	if res.overflow {
 		return []Obligation{{Key: prefix + "<paths>", Pos: c.Pos(fn.fd.Pos()), Status: Undecided, Detail: "path cap exceeded"}}
 	}
@@ -434,7 +461,15 @@ func r3emRunObligations(c *Ctx, r *vmVMRoles, cs *r2FieldSumm) []Obligation {
 						}
 					}
 				}
-				if e.K != evSend || vmFieldOf(info, e.X) != sigF || !vmIsNil(info, e.Val) {
+				if e.K != evSend || vmFieldOf(info, e.X) != sigF {
+					continue
+				}
+				sent := e.Val
+				if res.binds != nil {
+					// the value may be the parameter of a spliced send helper
+					sent, _, _ = vmResolveAt(info, res.binds, p.ev, j, e.Val)
+				}
+				if !vmIsNil(info, sent) {
 					continue
 				}
 				nNil++
